@@ -43,10 +43,13 @@ bool exec_apply(ExecCtx &c) {
         T s = scalar_choice(op.d);
         std::visit(
             [&](const auto &x) {
+              const int cx = value_cat(c, xs, 0, true);
               libcall(out, [&] {
                 with_plain_recipe(r, s, [&](auto &&o) {
-                  auto res = o * x;
-                  store_result(c, dst, std::move(res));
+                  as_cat(cx, x, [&](auto &&xx) {
+                    auto res = o * SIM_FWD(xx);
+                    store_result(c, dst, std::move(res));
+                  });
                 });
               });
             },
@@ -55,6 +58,7 @@ bool exec_apply(ExecCtx &c) {
       }
       const SpV *vs = ref_sp_maxorder(c, op.d, MAXFACT);
       if (!vs) return true;
+      const T fs = scalar_choice(1 + (op.a / NP) % 11);  // non-zero
       std::visit(
           [&](const auto &x, const auto &v) {
             using V = std::decay_t<decltype(v)>;
@@ -81,18 +85,21 @@ bool exec_apply(ExecCtx &c) {
                        v.getCoefficients());
                   V vs2(Support(gx, v.getSupport().getStartIndex(), v.getSupport().getEndIndex()), v.getCoefficients());
                   uint64_t h1 = 0, h2 = 0;
-                  with_factor_recipe(r, vo, [&](auto &&o) { h1 = hash_spline_wc(o * xf); });
-                  with_factor_recipe(r, vs2, [&](auto &&o) { h2 = hash_spline_wc(o * xf); });
+                  with_factor_recipe(r, vo, fs, [&](auto &&o) { h1 = hash_spline_wc(o * xf); });
+                  with_factor_recipe(r, vs2, fs, [&](auto &&o) { h2 = hash_spline_wc(o * xf); });
                   probe(PR_TWIN_COMPARED);
                   twin_differs = h1 != h2;
                 } catch (const std::exception &) {
                 }
               }
               if (has_int && !same) sim::g_cur->note = 1;
+              const int cx = value_cat(c, xs, 0, same);
               libcall(out, [&] {
-                with_factor_recipe(r, v, [&](auto &&o) {
-                  auto res = o * x;
-                  store_result(c, dst, std::move(res));
+                with_factor_recipe(r, v, fs, [&](auto &&o) {
+                  as_cat(cx, x, [&](auto &&xx) {
+                    auto res = o * SIM_FWD(xx);
+                    store_result(c, dst, std::move(res));
+                  });
                 });
               });
               if (has_int) c08_check(c, !same, true, distinct, "SplineOperator::transform");
@@ -183,9 +190,12 @@ bool exec_apply(ExecCtx &c) {
             }
             if (has_int && og) c08_note(E_HELD_APPLY, x.getSupport().getGrid(), *og);
             if (has_int && og && !same) sim::g_cur->note = 1;
+            const int cx = value_cat(c, xs, 0, same && og);
             libcall(out, [&] {
-              auto res = oper * x;
-              store_result(c, dst, std::move(res));
+              as_cat(cx, x, [&](auto &&xx) {
+                auto res = oper * SIM_FWD(xx);
+                store_result(c, dst, std::move(res));
+              });
             });
             if (has_int && og) c08_check(c, !same, true, false, "SplineOperator::transform");
           },
